@@ -221,6 +221,21 @@ Control ==
     : w \in Winds, err \in { P("car", <<I(0)>>), P("error", <<C(StrV("boom"))>>), App(I(1), <<I(2)>>),
                              P("+", <<I(1), WithHandler(Lam(<<"e">>, "", P("car", <<I(1)>>)), P("car", <<I(2)>>))>>) } }
   \cup
+  \* how the BODY of a dynamic-wind is left (value / error / escape) x what its AFTER thunk does while the body is
+  \* being left (returns / raises / escapes) x what the enclosing handler does with the error (returns / escapes
+  \* through the outer continuation, whose winders differ) x nesting: every thunk runs exactly once per exit
+  { << <<Emit1(P("call/cc", <<Lam(<<"kk">>, "",
+            WithHandler(Lam(<<"e">>, "", Begin(<<Emit1(C(SymV("h"))), hreact>>)),
+                        Wrap(w, P("dynamic-wind", <<Lam(<< >>, "", Emit1(C(SymV("in")))),
+                                                    Lam(<< >>, "", body),
+                                                    Lam(<< >>, "", Begin(<<Emit1(C(SymV("out"))), aft>>))>>))))>>)),
+         Emit1(C(SymV("after")))>>,
+       <<Emit1(C(SymV("next-unit")))>> >>
+    : w \in {0, 1},
+      body \in { I(5), P("car", <<I(0)>>), App(V("kk"), <<I(7)>>) },
+      aft \in { I(0), P("car", <<I(1)>>), App(V("kk"), <<I(8)>>) },
+      hreact \in { C(SymV("rec")), App(V("kk"), <<I(9)>>) } }
+  \cup
   \* an uncaught error unwinds through winds and ends the unit; the next unit runs
   { << <<Emit1(C(SymV("start"))), Emit1(Wrap(w, P("car", <<I(0)>>))), Emit1(C(SymV("not-reached")))>>,
        <<Emit1(C(SymV("next-unit")))>> >> : w \in Winds }
